@@ -379,6 +379,23 @@ End Bundled.
 Lemma map_repeat' {A B} (g : A -> B) (a : A) n : map g (repeat a n) = repeat (g a) n.
 Proof. induction n as [|n IH]; cbn; [reflexivity|]. f_equal. exact IH. Qed.
 
+Lemma list_eqb_refl {A} (eqb : A -> A -> bool) (l : list A) :
+  (forall a, eqb a a = true) -> list_eqb eqb l l = true.
+Proof. intros H. induction l as [|a l IH]; cbn; [reflexivity|]. rewrite H, IH. reflexivity. Qed.
+
+Lemma call_out_eqb_refl (c : call_out) : call_out_eqb c c = true.
+Proof.
+  destruct c; cbn; rewrite ?String.eqb_refl, ?Nat.eqb_refl, ?(list_eqb_refl Z.eqb) by apply Z.eqb_refl; try reflexivity.
+  cbn. apply list_eqb_refl. intros a. apply list_eqb_refl, Z.eqb_refl.
+Qed.
+
+(* n equal entries are one run of length n *)
+Lemma rle_repeat (c : call_out) (n : nat) : rle (repeat c (S n)) = [(c, S n)].
+Proof.
+  induction n as [|n IH]; [reflexivity|].
+  change (repeat c (S (S n))) with (c :: repeat c (S n)). cbn [rle]. rewrite IH, call_out_eqb_refl. reflexivity.
+Qed.
+
 Theorem observe_table (m : mode) (f : bool) (n : nat) (s : list nat) (t : Q) (ncols : nat) :
   prod_shape s = n ->
   observe m f n s t ncols =
@@ -386,7 +403,7 @@ Theorem observe_table (m : mode) (f : bool) (n : nat) (s : list nat) (t : Q) (nc
   | Some k =>
       match k, ncols with
       | SolveIvp _, O => None
-      | _, _ => Some (s, repeat (call_print (kernel_call k f t)) n)
+      | _, _ => Some (s, rle (repeat (call_print (kernel_call k f t)) n))
       end
   | None => None
   end.
